@@ -20,7 +20,7 @@ EditMin == \/ \E b \in Blobs : CreateBlobM(b)
            \/ \E v \in PVals : ModifyPQ(v)
 PackAtTid(T) == T \in TidsOf(hist) /\ Pack(T)
 NextTxn == EditQ \/ Sp \/ AbortTxn \/ Tpc \/ AbortPath \/ OtherQ \/ WrongSome \/ Handles \/ Other
-NextHist == EditMin \/ Tpc \/ AbortPath \/ Other \/ UndoAll \/ (\E T \in 1..MaxTid : PackAtTid(T))
+NextHist == EditMin \/ Links \/ Tpc \/ AbortPath \/ Other \/ UndoAll \/ (\E T \in 1..MaxTid : PackAtTid(T))
 NextHistNoPack == EditMin \/ Tpc \/ AbortPath \/ Other \/ UndoAll
 \* foreign calls at every phase, the second writer's late bookkeeping at every point of a commit of c1, a failing
 \* blob copy in undo - with the smallest edits
